@@ -918,7 +918,7 @@ class _Prop:
         "(implicit x external in {True, False, None} x max_iterations), lazy dereference of the k-th alias through "
         "20 accessors, direct expand_exports/expand_wildcards, full JSON; optional syntax/read faults in lazily "
         "loaded packages. Invariants I1-I5 after every operation. Non-trivial = the tree holds at least one alias "
-        "and two operations ran; distinct = distinct (operation/outcome trace, end-state digest). Also drawn: class bases through aliases, guarded (TYPE_CHECKING / try / if) imports, module docstrings, __all__ splices through aliases of modules (planted alias rings), direct alias.target = other links, dotted-object and submodules=False loads, reloads of packages already held, external packages with valid or broken top-level stubs, a <pkg>-stubs package in a second search path loaded with find_stubs_package=True."
+        "and two operations ran; distinct = distinct (operation/outcome trace, end-state digest). Also drawn: class bases through aliases, guarded (TYPE_CHECKING / try / if) imports, module docstrings, __all__ splices through aliases of modules (planted alias rings), direct alias.target = other links, dotted-object and submodules=False loads, reloads of packages already held, external packages with valid or broken top-level stubs, a <pkg>-stubs package in a second search path loaded with find_stubs_package=True. Round j/k: planted wildcard motifs (star from a self-cyclic name, star of a module that stars itself, star through an alias of a module, star importing the name of the sub-module it comes from), @dataclass classes (three spellings) with annotated fields and class-level imports, bases written as attribute accesses."
     )
     COMPONENTS = {
         "real": ["_griffe.loader (load, resolve_aliases, expand_exports, expand_wildcards)", "_griffe.models.Alias", "_griffe.mixins", "_griffe.agents.visitor", "_griffe.finder", "real files on tmpfs"],
